@@ -337,7 +337,24 @@ func firstAltered(t *transcript, alt []byte) (k int, atBoundary bool, identical 
 
 type readResult struct {
 	data []byte
-	err  error // nil = clean EOF
+	err  error  // nil = clean EOF
+	late []byte // bytes handed out by reads made after the stream had already ended (error or EOF)
+}
+
+// lateReads keeps reading after the stream has ended, as a relay's second copy direction or a caller that retries
+// does: a stream that has failed or ended must hand out nothing more, whatever buffer size or copy path is used.
+func lateReads(c io.Reader) (late []byte) {
+	for _, size := range []int{32, 70000, 1} {
+		b := make([]byte, size)
+		n, _ := c.Read(b)
+		late = append(late, b[:n]...)
+	}
+	if wt, ok := c.(io.WriterTo); ok {
+		w := &netsim.RecWriter{}
+		wt.WriteTo(w)
+		late = append(late, w.Data...)
+	}
+	return late
 }
 
 func drain(c io.Reader, big bool, useWriteTo bool) readResult {
@@ -348,6 +365,7 @@ func drain(c io.Reader, big bool, useWriteTo bool) readResult {
 			_, err := wt.WriteTo(w)
 			rr.data = w.Data
 			rr.err = err
+			rr.late = lateReads(c)
 			return rr
 		}
 	}
@@ -363,6 +381,7 @@ func drain(c io.Reader, big bool, useWriteTo bool) readResult {
 			if err != io.EOF {
 				rr.err = err
 			}
+			rr.late = lateReads(c)
 			return rr
 		}
 	}
@@ -421,6 +440,7 @@ func sessionTrials(e *core.Env, ci int, r *core.RNG, p *sessParams) {
 		req, err := srv.HandleStream(b, ssx.Nop)
 		var delivered []byte
 		var rerr error
+		var late []byte
 		status := "rejected"
 		if err == nil {
 			if req.Addr.Equals(fallbackAddr) && p.Fallback {
@@ -443,6 +463,7 @@ func sessionTrials(e *core.Env, ci int, r *core.RNG, p *sessParams) {
 				rr := drain(sc, p.BigReadBuf, r.Chance(1, 4))
 				delivered = append(delivered, rr.data...)
 				rerr = rr.err
+				late = rr.late
 				if !req.Addr.Equals(target) {
 					viol("c2s", op, "wrong_target", "server accepted target %s from an altered stream", req.Addr)
 				}
@@ -466,6 +487,9 @@ func sessionTrials(e *core.Env, ci int, r *core.RNG, p *sessParams) {
 				break
 			}
 			want := t.plainBefore(k)
+			if all := append(append([]byte{}, delivered...), late...); len(late) > 0 && !bytes.HasPrefix(t.plainBefore(len(t.units)), all) {
+				viol("c2s", op, "bytes_after_failed_read_not_genuine", "after the server's read had failed (%v) further reads handed out %d more bytes, and what was returned in total is not a prefix of what the client sent (first difference at %d): %s", rerr, len(late), core.FirstDiff(all, t.plainBefore(len(t.units))), core.Hex(late, 32))
+			}
 			if !bytes.Equal(delivered, want) {
 				viol("c2s", op, "delivered_not_prefix", "server returned %d bytes, want exactly the %d bytes of the %d units before the alteration (first difference at %d)", len(delivered), len(want), k, core.FirstDiff(delivered, want))
 			} else if !identical && rerr == nil {
@@ -582,6 +606,9 @@ func sessionTrials(e *core.Env, ci int, r *core.RNG, p *sessParams) {
 		outcome := "error"
 		if rr.err == nil {
 			outcome = "eof"
+		}
+		if all := append(append([]byte{}, rr.data...), rr.late...); len(rr.late) > 0 && !bytes.HasPrefix(t.plainBefore(len(t.units)), all) {
+			viol("s2c", op, "bytes_after_failed_read_not_genuine", "after the client's read had failed (%v) further reads handed out %d more bytes, and what was returned in total is not a prefix of what the server sent (first difference at %d): %s", rr.err, len(rr.late), core.FirstDiff(all, t.plainBefore(len(t.units))), core.Hex(rr.late, 32))
 		}
 		if !bytes.Equal(rr.data, want) {
 			viol("s2c", op, "delivered_not_prefix", "client returned %d bytes, want exactly the %d bytes of the %d units before the alteration (first difference at %d; first altered unit %s)", len(rr.data), len(want), k, core.FirstDiff(rr.data, want), kind)
